@@ -547,12 +547,26 @@ class Schema(ResolverMap):
         self._is_valid = None
 
     def clone(self) -> "Schema":
+        # All the types and directives of the schema are carried over,
+        # including the ones which cannot be reached from the root types.
         cloned = Schema(
             query_type=self.query_type,
             mutation_type=self.mutation_type,
             subscription_type=self.subscription_type,
+            types=[
+                t
+                for t in self.types.values()
+                if t not in SPECIFIED_SCALAR_TYPES
+                and t not in INTROPSPECTION_TYPES
+            ],
+            directives=[
+                d
+                for d in self.directives.values()
+                if d not in SPECIFIED_DIRECTIVES
+            ],
             nodes=self.nodes,
         )
+        cloned.default_resolver = self.default_resolver
 
         cloned._replace_types_and_directives(
             types={
